@@ -127,6 +127,7 @@ func init() {
 			run := c.Fn(ob2, relInterp, "RunProgram")
 			runSt := ir.Dispatcher
 			c.CallOrder(ob2, "order:RunProgram:statements-after-fetch", run, reachesAvoiding(c, fetch, gb), reachesFn(c, runSt), "statements run only after the balances were fetched")
+			obFetchFirst(c, "C10.2b")
 			obCacheMergeOnly(c, "C10.3")
 			obBatchAlways(c, "C10.4b")
 			obWorldNeverQueried(c, "C10.4")
